@@ -769,6 +769,7 @@ func main() {
 	}
 	parallel(rebindHistories(hx.Rand(), nre), evalRebind)
 	parallel(failedStartHistories(), evalFailedStart)
+	parallel(globalRefHistories(), evalGlobalRef)
 
 	// 3. generated histories
 	n := 400
